@@ -440,7 +440,7 @@ def handle (line : String) : String :=
         let all := [d, sp, s15].filter (· != "")
         if all.isEmpty then "OK" else String.intercalate " ; " all
       | _, _ => "BAD args"
-    | ["reader", lim, hx, chunks, ewd, errAt] =>
+    | "reader" :: lim :: hx :: chunks :: ewd :: errAt :: wrap =>
       match parseNat lim, unhex hx with
       | some l, some data =>
         let cs : List Nat := if chunks == "~" then [] else (chunks.splitOn ",").filterMap String.toNat?
@@ -450,7 +450,8 @@ def handle (line : String) : String :=
         match goRes.splitOn " " with
         | [ecls, deliv, rres, dres] =>
           let mErr := if inp.isNone then "sentinel" else "nil"
-          let d1 := if mErr == ecls && toString n == deliv then "" else s!"DIFF reader model={mErr} {n}"
+          let wrapped := !wrap.isEmpty
+          let d1 := if mErr == ecls && (wrapped || toString n == deliv) then "" else s!"DIFF reader model={mErr} {n}"
           let octet := bhex mimeOctet ++ "|-/" ++ bhex mimeOctet
           -- specification clauses on the implementation's own result
           let s1 := if l != 0 && deliv.toNat?.getD 0 > l then "SPEC C05:consumed-more-than-limit ; SPEC C04:bytes-beyond-the-limit-were-examined" else ""
@@ -724,7 +725,7 @@ def handle (line : String) : String :=
         let jsonFamily := hasPrefix mime (ofString "application/json") || hasPrefix mime (ofString "application/geo+json") ||
           hasPrefix mime (ofString "model/gltf+json") || hasPrefix mime (ofString "application/x-ndjson")
         if d > Gen.Json.maxRecursion + 1 && jsonFamily then "SPEC C16:nesting-beyond-the-cap-reported-as-json" else "OK"
-      | _ => "SPEC C16:detection-did-not-survive-the-bomb(" ++ goRes ++ ")"
+      | _ => "SPEC C16:detection-did-not-survive-the-bomb(" ++ goRes ++ ") ; SPEC C01:detection-crashed-on-deep-nesting"
     | ["limflip", _l1, _l2, _hx] => flipJudge goRes
     | ["matchflip", _l1, _l2, _hx] => flipJudge goRes
     | ["fmt", th, vh] =>
